@@ -44,7 +44,8 @@ var all = map[string]*runner.Spec{
 			"process boundary, os.Exit, log.Fatal and stdout are stubbed in-process at main level",
 		},
 		QuickRuns: 2000, ThorRuns: 80000, QuickCap: 420, ThorCap: 2400,
-		TestPkgs: []string{"github.com/google/licenseclassifier/v2"},
+		TestPkgs:     []string{"github.com/google/licenseclassifier/v2"},
+		RealBinaries: map[string]string{"identify_license": "v2|./tools/identify_license"},
 		Instrument: func(sc *runner.Scratch) error {
 			_, err := sc.Instrument(runner.InstrumentPlan{
 				V2: map[string]instr.Opts{"": yieldsOnly, "tools/identify_license": mainPkg, "tools/identify_license/backend": fullElems, "tools/identify_license/results": fullElems},
